@@ -11,7 +11,7 @@ func init() {
 		ID: "C17",
 		Explanation: "Decides the shape of the session manager's healing loop: the watcher goroutine (the one that waits on a pooled session's close channel) closes the pool when the session is lost; a failed reconnect leads to another attempt (never to giving up), the only ways out of the rebuild loop are success, the epoch-changed edge and cancellation; the reconnect happens on the epoch-unchanged edge, under the manager lock, so a pool replaced by a hot restart is not rebuilt a second time; the rebuilt session is stored into the pool; every wait of the watcher has a ctx.Done() arm or is a bounded sleep, and Close cancels before it waits; calls made while no session is available contain no blocking operation and OpenStream reports the shutdown error. " +
 			"NOT decided: timing relative to the rebuild interval, repeated losses, interplay schedules with hot restart.",
-		RuleText: "R17.1 path search from the failure edge of the reconnect call; R17.2 dominance of the reconnect by the epoch test and the lock region; R17.3 escape arms (with C11 R11.1) and cancel-before-wait; R17.4 absence of blocking instructions in the pool getter.",
+		RuleText: "R17.1 path search from the failure edge of the reconnect call; R17.2 dominance of the reconnect by the epoch test and the lock region; R17.3 escape arms (with C11 R11.1) and cancel-before-wait; R17.4 absence of blocking instructions in the pool getter; R17.5 the watched pool value is a table read that is re-executed on the loop path back from the wait.",
 		Run:      runC17,
 	})
 }
@@ -36,6 +36,7 @@ func runC17(p *P, r *R) {
 	}
 	r.role("session watcher goroutines", p.names(watchers))
 	r.count("R17.1", "watcher goroutines", len(watchers), 1)
+	watcherFollowsTable(p, r, "R17.5")
 	rebuild := p.mCall("newClientSession")
 	for _, w := range watchers {
 		fn := p.fname(w)
@@ -318,4 +319,93 @@ func watcherEpochTest(p *P, r *R, rule string) {
 		}
 	}
 	r.count(rule, "reconnect sites in watchers", n, 1)
+}
+
+// watcherFollowsTable (R17.5 / R16.8): a hot restart installs a new pool object in the table slot, so a watcher must
+// look the slot up again before every wait: the pool whose session's CloseChan it waits on is read from
+// SessionManager.pools inside the loop (re-executed after each wait), not captured once when the watcher started.
+func watcherFollowsTable(p *P, r *R, rule string) {
+	n := 0
+	for _, w := range p.fnList {
+		allInstrs(w, func(in ssa.Instruction) {
+			sel, ok := in.(*ssa.Select)
+			if !ok || !sel.Blocking {
+				return
+			}
+			for _, st := range sel.States {
+				c, ok := st.Chan.(*ssa.Call)
+				if !ok || p.calleeName(&c.Call) != "(*Session).CloseChan" {
+					continue
+				}
+				n++
+				okv, detail := false, "the watched session is not obtained through (*streamPool).Session of a pool value"
+				if sc, oks := c.Call.Args[0].(*ssa.Call); oks && p.calleeName(&sc.Call) == "(*streamPool).Session" {
+					pv := sc.Call.Args[0]
+					pin, isInstr := pv.(ssa.Instruction)
+					switch {
+					case !isInstr:
+						detail = "the watched pool is captured once (parameter / free variable) and never looked up again"
+					case !fromPoolTable(p, pv, 2):
+						detail = "the watched pool is not read from SessionManager.pools"
+					case !p.reaches(sel, pin, nil):
+						detail = "the pool is read from the table only before the loop"
+					default:
+						okv, detail = true, ""
+					}
+				}
+				r.ob(rule, p.fname(w)+": the watcher re-reads its pool from the table before every wait", p.ipos(sel), okv, true,
+					"a hot restart replaces the pool object in the slot; a watcher that keeps the old object leaves the new session unwatched: %s", detail)
+			}
+		})
+	}
+	r.count(rule, "waits on a session's CloseChan in watchers", n, 1)
+}
+
+// fromPoolTable: v is read from SessionManager.pools, directly or as the result of a local getter whose every
+// non-nil result is such a read.
+func fromPoolTable(p *P, v ssa.Value, depth int) bool {
+	isTbl := func(y ssa.Value) bool { return isLoadOf(y, "SessionManager.pools") }
+	if e, ok := v.(*ssa.Extract); ok {
+		if c, okc := e.Tuple.(*ssa.Call); okc && depth > 0 {
+			if g := c.Call.StaticCallee(); g != nil && g.Pkg == p.Pkg && g.Blocks != nil {
+				n := 0
+				for _, ret := range returnsOf(g) {
+					if g.Recover != nil && ret.Block() == g.Recover {
+						continue
+					}
+					rv := resultOf(ret, e.Index)
+					if isNilConst(rv) {
+						continue
+					}
+					if !fromPoolTable(p, rv, depth-1) {
+						return false
+					}
+					n++
+				}
+				return n > 0
+			}
+		}
+		return false
+	}
+	if c, ok := v.(*ssa.Call); ok && depth > 0 {
+		if g := c.Call.StaticCallee(); g != nil && g.Pkg == p.Pkg && g.Blocks != nil {
+			n := 0
+			for _, ret := range returnsOf(g) {
+				if g.Recover != nil && ret.Block() == g.Recover {
+					continue
+				}
+				rv := resultOf(ret, 0)
+				if isNilConst(rv) {
+					continue
+				}
+				if !fromPoolTable(p, rv, depth-1) {
+					return false
+				}
+				n++
+			}
+			return n > 0
+		}
+		return false
+	}
+	return derivedFrom(v, isTbl, 6)
 }
